@@ -139,6 +139,7 @@ structure Handler where
   vigilDeferred : Bool := true       -- every `BeginVigil()` is paired with `defer CeaseVigil()`
   okNil         : Bool := false      -- a success path returns a nil response of a message type that has fields
   recognised    : Bool := true
+  mayStop       : Bool := false      -- (streams) the entry loop may end with success before the last entry (MaxResults)
   defers        : List Dfr := []
   val           : List Step := []    -- first loop (validation of every entry before any engine call)
   main          : List Step := []    -- second loop over the entries that passed `val`
@@ -328,7 +329,7 @@ def reachesEngine (cfg : Cfg) (h : Handler) (sh : Shape) : Bool := (exec cfg h s
 /-! ### Facts as strings (one grammar for the Lean verdict and for the driver)
 
   handler  :=  name '|' flags '|' defers '|' steps '|' steps
-  flags    :=  subset of  s(tream) m(ulti) w(rites) v(igil deferred) n(il success) u(nrecognised)
+  flags    :=  subset of  s(tream) m(ulti) w(rites) v(igil deferred) n(il success) t(may stop early) u(nrecognised)
   defers   :=  word over  L U H E
   steps    :=  step (';' step)*            (may be empty)
   step     :=  'g' act cond | 'load' | 'loadgo' | 'body' | 'unknown' | 'cn' exist mode
@@ -423,7 +424,7 @@ def parseHandler (s : String) : Handler :=
     let val := parseSteps v
     let main := parseSteps m
     { name := nm, stream := fl.contains 's', multi := fl.contains 'm', writes := fl.contains 'w',
-      vigilDeferred := fl.contains 'v', okNil := fl.contains 'n',
+      vigilDeferred := fl.contains 'v', okNil := fl.contains 'n', mayStop := fl.contains 't',
       recognised := !fl.contains 'u' && !fl.contains '?' && (val ++ main).all stepKnown,
       defers := parseDefers ds, val := val, main := main }
   | _ => { name := s, recognised := false }
